@@ -77,6 +77,7 @@ func c05encExec(c *cur) string {
 		mode = 2
 	}
 	mxj.XmlCheckIsValid(valid)
+	bystanders()
 	notes := []string{}
 	// decoder-side escaping: decode followed by encode reproduces the original escaped values
 	if decoderMode && doc != "" {
